@@ -12,13 +12,13 @@ reg("C03", "generated-input search against an independent ghost-cell reference m
     "Ghost layer, plot profile and boundary rows compared with an independent reference Robin/periodic relation after construction, edit+apply_BCs, solvePDE and solveExplicitPDE on generated BC combinations; invariance under scaling (a,b,c). Exploration.",
     TB + "; only well-posed Robin coefficients generated; K2 residual on unequal-ended periodic axes attributed to the known finding", "DESIGN.md 3 C03")
 reg("C04", "differential testing: harness-assembled system and own solve vs solvePDE / solveMatrixPDE / recording external solver",
-    "For generated term lists (kinds, signs, scalings, order) the harness accumulates the system itself and compares stored values, the system handed to an external solver, solveMatrixPDE, row residuals, interior-row contract of every builder, affinity in data. Exploration.",
+    "For generated term lists (kinds, signs, scalings, order) the harness accumulates the system itself and compares stored values, the system handed to an external solver, solveMatrixPDE, row residuals, interior-row contract of every builder, affinity in data; BCs edited after construction (all sides / one side, optionally after a first solve) and cache-less variable kinds (BCsTerm_precalc=False, result of solveExplicitPDE). Exploration.",
     TB, "DESIGN.md 3 C04")
 reg("C06", "generated-input search: operator applied to constants, steady uniform state in discretely divergence-free flow",
     "Constants through diffusion/advection/TVD/means on generated grids and velocities; uniform state in stream-function velocity fields under all schemes stays uniform for any dt; source-only solve gives gamma/beta. Exploration.",
     TB, "DESIGN.md 3 C06")
 reg("C07", "generated-input search with a validity predicate (range of values) + M-matrix structure of the eliminated step matrix",
-    "Generated problems (contrast to 1e6, zeros in D, dt over 8 decades, Dirichlet/no-flux/periodic) must keep every value within the range of previous values and Dirichlet data; the ghost-eliminated matrix is checked for non-positive off-diagonals and non-negative row sums. Exploration.",
+    "Generated problems (contrast to 1e6, zeros in D, dt over 8 decades, Dirichlet/no-flux/periodic) must keep every value within the range of previous values and Dirichlet data; the ghost-eliminated step matrix AND the spatial operator alone (dt -> infinity) are checked for non-positive off-diagonals and non-negative row sums. Exploration.",
     TB + "; periodic axes with equal end cells (K2)", "DESIGN.md 3 C07")
 reg("C08", "metamorphic / differential testing between paired grids (lift, permute, mirror, cyclic shift)",
     "A generated low-dimensional problem is solved on its grid and on the higher-dimensional grid with a redundant axis (9 embeddings + two-step lifts), or permuted / mirrored / cyclically shifted on Cartesian grids; solutions must correspond incl. boundary values. Exploration.",
@@ -30,7 +30,7 @@ reg("C11", "generated-input search against reference mean formulas + bounds/orde
     "All five means compared with reference formulas of the two adjacent cells, bounds, ordering, exactness on linear fields, donor rule, independence from edge ghosts, agreement of the 1D loop with the vectorised 2D/3D code incl. zeros. Exploration.",
     TB, "DESIGN.md 3 C11")
 reg("C12", "generated-input search with algebraic identities and derived bounds (backward Euler theorems)",
-    "Residual identity per cell, steady state as fixed point for any dt/alpha, dt->inf and dt->0 bounds from the dense eliminated operator, explicit update and purity, implicit-explicit O(dt^2) bound and leading term, dt over 12 decades. Exploration.",
+    "Residual identity per cell, steady state as fixed point for any dt/alpha, dt->inf and dt->0 bounds from the dense eliminated operator, explicit update and purity, implicit-explicit O(dt^2) bound and leading term, dt over 12 decades; the time loop reuses one solution variable, the same spatial term objects and one per-cell alpha variable updated in place. Exploration.",
     TB + "; dense inverse of the small eliminated operator (numpy.linalg) trusted", "DESIGN.md 3 C12")
 reg("C13", "bounded-exhaustive enumeration (names x singular rationals x powers of ten; all small integer fields) + Hypothesis floats, exact rational oracle",
     "Limiter values against published closed forms in exact rational arithmetic; totality, psi(1)=1, TVD bounds, clipping, elementwise/shape behaviour, unknown-name fallback; TVD correction finite on ALL integer fields {-2..2}^(N+2), N<=3 (exhaustive) and generated 2-D/3-D fields.",
@@ -42,13 +42,13 @@ reg("C17", "metamorphic testing under unit rescaling (L,T,K over +-6 decades) + 
     "A generated problem and its rescaled twin must give solutions related by exactly K (1e-9); homogeneity/additivity of every term in its coefficient field. Exploration; K4 reported as known finding.",
     TB + "; cases with non-zero gradients below 1e-12 excluded for TVD (K4), counted", "DESIGN.md 3 C17")
 reg("C09", "model-based stateful testing (Hypothesis RuleBasedStateMachine + generated programs) and bounded-exhaustive enumeration of edit/solve histories against a reference model and fresh-variable differential",
-    "Edit/solve histories are executed on the real objects and on a dict-of-arrays model; after every solve a fresh variable built from the model runs the same solve and full arrays are compared; invariants after every step (visible state equals model, clean variables have reference ghost values and a fresh cached boundary term). All sequences of length <=3 (4) over a 14-letter alphabet are enumerated; longer histories are sampled. K3 reported as known finding.",
+    "Edit/solve histories are executed on the real objects and on a dict-of-arrays model; after every solve a fresh variable built from the model runs the same solve and full arrays are compared; invariants after every step (visible state equals model, clean variables have reference ghost values and a fresh cached boundary term). All sequences of length <=3 (4) over a 14-letter alphabet and every single edit kind x face x grid class on a clean variable are enumerated; longer histories are sampled. K3 (attributed from the model only) reported as known finding.",
     TB + "; solves skipped while a BC face is degenerate; terms built from coefficient fields only", "DESIGN.md 3 C09")
 reg("C14", "generated expression trees evaluated against numpy (reference evaluation) with byte snapshots and cross-modification probes",
-    "Expression trees (depth<=3) over all operators and reflected operators, funceval/celleval/faceeval, copy(): values bitwise equal to numpy, operands byte-identical before/after, result BCs equal to the left-most operand's but unshared, reference ghost layer, no shared memory, edits do not leak either way. K6 reported as known finding.",
+    "Expression trees (depth<=3) over all operators and reflected operators, funceval/celleval/faceeval, copy(): values bitwise equal to numpy, operands byte-identical before/after, result BCs equal to the left-most operand's but unshared, reference ghost layer, no shared memory, edits do not leak either way.",
     TB, "DESIGN.md 3 C14")
 reg("C15", "generated-input search with byte snapshots of every input before/after each public builder/solver, bit-identity of repeated calls, aliasing probes",
-    "Every public builder and solver on generated inputs: snapshots of mesh, coefficient variables, solution variable, BC arrays, cached boundary term and term objects before/after; repeated calls bit-identical; returned objects share no memory with inputs/mesh; time loop reusing terms equals loop rebuilding them.",
+    "Every public builder and solver on generated inputs: snapshots of mesh, coefficient variables, solution variable, BC arrays, cached boundary term and term objects before/after; repeated calls bit-identical; returned objects share no memory with inputs/mesh; a builder called again after an in-place edit of its input equals the builder on fresh objects (no stale memoisation); zero-containing coefficients for the means; time loop reusing terms equals loop rebuilding them.",
     TB, "DESIGN.md 3 C15")
 reg("C02", "generated manufactured solutions (sympy-derived source and boundary data) + observed order of convergence on a resolution ladder",
     "For generated class/spacing/BC-kind/term-set/solution-parameter combinations the exact solution's source term and boundary data are derived symbolically from the continuous operators; the problem is solved on 3 (escalating to 5) doubling resolutions and the observed order of the max-norm error must reach the scheme's order. Decides consistency of every metric factor, sign and coefficient placement; not a proof of convergence.",
